@@ -107,9 +107,34 @@ def _formula(n):
     return F
 
 
+def _gen_bip(rng):
+    l, r = rng.choice([0, 1, 2, 3, 4]), rng.choice([0, 1, 2, 3, 4])
+    pairs = [(u, v) for u in range(1, l + 1) for v in range(1, r + 1)]
+    rng.shuffle(pairs)
+    return (l, r, pairs[:rng.randint(0, len(pairs))])
+
+
+def _real_bip(g):
+    from cnfgen.graphs import BipartiteGraph
+    l, r, es = g
+    B = BipartiteGraph(l, r)
+    for u, v in es:
+        B.add_edge(u, v)
+    return B
+
+
+def _enc_bip(g):
+    l, r, es = g
+    out = [l, r, len(es)]
+    for u, v in es:
+        out += [u, v]
+    return out
+
+
 ABS = {
     "AbsFormula": {"gen": lambda rng: rng.choice([0, 0, 1, 3, 7, 100, 2 ** 40]), "real": _formula,
                    "encode": lambda n: [n]},
+    "AbsBipGraph": {"gen": _gen_bip, "real": _real_bip, "encode": _enc_bip},
 }
 
 
@@ -204,22 +229,127 @@ def block_pattern(rng, ctx):
     return [None if rng.random() < 0.5 else rng.randint(0, max(r, 0) + 1) for r in rs]
 
 
+def bin_n(rng, ctx):
+    return rng.choice([0, 1, 1, 2, 3, 4, 5, -1])
+
+
+def bin_m(rng, ctx):
+    return rng.choice([0, 1, 2, 3, 4, 5, 6, 7, 8, 9, 13, 16, 17, 32, 33, 255, 256, 257, 1024, -1, -2])
+
+
+def bin_lit(rng, ctx):
+    nv = ctx.get("formula", 0)
+    n, m = max(ctx.get("n", 0), 0), max(ctx.get("m", 0), 0)
+    size = n * max(m - 1, 0).bit_length()
+    v = rng.randint(nv - 1, nv + size + 2)
+    if rng.random() < 0.1:
+        v = gen_int(rng)
+    return v if rng.random() < 0.6 else -v
+
+
+def bin_pattern(rng, ctx):
+    n, m = max(ctx.get("n", 0), 0), max(ctx.get("m", 0), 0)
+    bits = max(m - 1, 0).bit_length()
+    r = rng.random()
+    if r < 0.15:
+        return []
+    if r < 0.25:
+        return [gen_value(rng, {"k": "opt", "e": {"k": "int"}}) for _ in range(rng.choice([1, 3]))]
+    return [None if rng.random() < 0.4 else rng.randint(0, n + 1), None if rng.random() < 0.4 else rng.randint(-1, bits + 1)]
+
+
+def bin_index(rng, ctx):
+    n, m = max(ctx.get("n", 0), 0), max(ctx.get("m", 0), 0)
+    bits = max(m - 1, 0).bit_length()
+    if rng.random() < 0.1:
+        return [gen_int(rng) for _ in range(rng.choice([0, 1, 3]))]
+    return [rng.randint(0, n + 1), rng.randint(-1, bits + 1)]
+
+
+def bin_i(rng, ctx):
+    return rng.randint(0, max(ctx.get("n", 0), 0) + 1)
+
+
+def bin_j(rng, ctx):
+    m = max(ctx.get("m", 0), 0)
+    bits = max(m - 1, 0).bit_length()
+    return rng.choice([rng.randint(0, 2 ** bits), rng.randint(-2 ** bits - 2, 2 ** bits + 2), 0, m])
+
+
+def bip_lit(rng, ctx):
+    nv = ctx.get("formula", 0)
+    g = ctx.get("G", (0, 0, []))
+    v = rng.randint(nv - 1, nv + len(g[2]) + 2)
+    if rng.random() < 0.1:
+        v = gen_int(rng)
+    return v if rng.random() < 0.6 else -v
+
+
+def bip_pattern(rng, ctx):
+    l, r, es = ctx.get("G", (0, 0, []))
+    x = rng.random()
+    if x < 0.15:
+        return []
+    if x < 0.25:
+        return [gen_value(rng, {"k": "opt", "e": {"k": "int"}}) for _ in range(rng.choice([1, 3]))]
+    if x < 0.6 and es:
+        u, v = rng.choice(es)
+        return [u if rng.random() < 0.7 else None, v if rng.random() < 0.7 else None]
+    return [None if rng.random() < 0.3 else rng.randint(-1, l + 1), None if rng.random() < 0.3 else rng.randint(-1, r + 1)]
+
+
+def bip_index(rng, ctx):
+    l, r, es = ctx.get("G", (0, 0, []))
+    x = rng.random()
+    if x < 0.7 and es:
+        return list(rng.choice(es))
+    if x < 0.8:
+        return [gen_int(rng) for _ in range(rng.choice([0, 1, 3]))]
+    return [rng.randint(-1, l + 1), rng.randint(-1, r + 1)]
+
+
 HINTS = {
+    ("BipartiteEdgesVariables", "lit"): bip_lit,
+    ("BipartiteEdgesVariables", "pattern"): bip_pattern,
+    ("BipartiteEdgesVariables", "index"): bip_pattern,
+    ("BipartiteEdgesVariables:_unsafe_index_to_lit", "index"): bip_index,
+    ("BinaryMappingVariables", "n"): bin_n,
+    ("BinaryMappingVariables", "m"): bin_m,
+    ("BinaryMappingVariables", "lit"): bin_lit,
+    ("BinaryMappingVariables", "pattern"): bin_pattern,
+    ("BinaryMappingVariables", "index"): bin_pattern,
+    ("BinaryMappingVariables", "i"): bin_i,
+    ("BinaryMappingVariables", "j"): bin_j,
     ("BlockOfVariables", "ranges"): small_ranges,
     ("BlockOfVariables", "lit"): block_lit,
     ("BlockOfVariables", "index"): block_index,
+    ("BlockOfVariables:__call__", "index"): block_pattern,
+    ("BinaryMappingVariables:_unsafe_index_to_lit", "index"): bin_index,
     ("BlockOfVariables", "pattern"): block_pattern,
 }
 
 
-def hint_for(owner, pname):
-    return HINTS.get((owner, pname))
+def hint_for(owner, pname, meth=None):
+    return HINTS.get(("{}:{}".format(owner, meth), pname)) or HINTS.get((owner, pname))
 
 
 # ------------------------------------------------------------------ one call: real code + request line
 def real_module(source):
     rel = source.split(":")[0]
     return importlib.import_module(rel[:-3].replace("/", "."))
+
+
+OMIT = object()
+
+
+def strip_omitted(args):
+    """an omitted trailing argument (the label left to its default)"""
+    args = list(args)
+    while args and args[-1] is OMIT:
+        args.pop()
+    if any(a is OMIT for a in args):
+        raise RuntimeError("only trailing arguments can be omitted")
+    return args
 
 
 def make_call(rng, fn, manifest):
@@ -231,17 +361,29 @@ def make_call(rng, fn, manifest):
 
     ctx = {}
 
-    def args_for(params, owner):
+    def defaults_of(owner, meth):
+        import inspect
+        target = getattr(mod, owner, None)
+        f = getattr(target, meth or "__init__", None) if cls else getattr(mod, fn["py"], None)
+        try:
+            sig = inspect.signature(f)
+        except (TypeError, ValueError):
+            return {}
+        return {n: (q.default is not inspect.Parameter.empty) for n, q in sig.parameters.items()}
+
+    def args_for(params, owner, meth=None):
         real, enc = [], []
         for p, ty in params:
             if ty["k"] == "erased":
                 v = gen_value(rng, ty)
+                if v is None and not defaults_of(owner, meth).get(p, False):
+                    v = "e[{},{}]"
                 if v is not None:
                     v = ProbeStr(v)
                 probes[p] = v
-                real.append(v)
+                real.append(v if v is not None else OMIT)
                 continue
-            v = gen_value(rng, ty, hint_for(owner, p), ctx)
+            v = gen_value(rng, ty, hint_for(owner, p, meth), ctx)
             ctx[p] = v
             enc.append((ty, v))
             real.append(ABS[ty["name"]]["real"](v) if ty["k"] == "abs" else v)
@@ -252,9 +394,9 @@ def make_call(rng, fn, manifest):
     if cls and not fn["is_init"]:
         if init is None:
             return None
-        init_real, init_enc = args_for(init["params"], cls)
+        init_real, init_enc = args_for(init["params"], cls, "__init__")
         init_obs = init["observers"]
-    real, enc = args_for(fn["params"], cls or fn["py"])
+    real, enc = args_for(fn["params"], cls or fn["py"], fn["py"])
     obs = fn["observers"]
 
     def outcome_of(o):
@@ -267,15 +409,15 @@ def make_call(rng, fn, manifest):
         """canonical answer of the real code; afterwards the probes hold the observer outcomes"""
         if cls is None:
             f = getattr(mod, fn["py"])
-            r = f(*real) if not fn["vararg"] else f(*real[0])
+            r = f(*strip_omitted(real)) if not fn["vararg"] else f(*real[0])
             return "OK " + canon(r, fn["ret"])
         C = getattr(mod, cls)
         if fn["is_init"]:
-            obj = C(*real)
+            obj = C(*strip_omitted(real))
             return "OK " + canon_obj(obj, cls, manifest)
-        obj = C(*init_real)
+        obj = C(*strip_omitted(init_real))
         m = getattr(obj, fn["py"])
-        r = m(*real[0]) if fn["vararg"] else m(*real)
+        r = m(*real[0]) if fn["vararg"] else m(*strip_omitted(real))
         if fn["ret"]["k"] == "obj":
             return "OK " + canon_obj(r, fn["ret"]["cls"], manifest)
         return "OK " + canon(r, fn["ret"])
